@@ -185,9 +185,13 @@ def MatrixLog3(R):   # pragma: no cover
     """
     trace = SafeTrace(R)
     acosinput = (trace - 1) / 2.0
-    if acosinput >= 1:
+    # sine of the angle from the skew part: arccos(acosinput) alone loses the
+    # angle (and 1/sin(theta) the result) within ~1e-5 rad of a half turn
+    sininput = 0.5 * np.sqrt((R[2][1] - R[1][2]) ** 2 + (R[0][2] - R[2][0]) ** 2
+                             + (R[1][0] - R[0][1]) ** 2)
+    if acosinput >= 1 or (acosinput > 0 and sininput == 0):
         return np.zeros((3, 3))
-    elif acosinput <= -1:
+    elif acosinput <= -1 or (acosinput < 0 and sininput < 1e-9):
         if not NearZero(1 + R[2][2]):
             omg = ((1.0 / np.sqrt(2 * (1 + R[2][2])))
                   * np.array([R[0][2], R[1][2], 1 + R[2][2]]))
@@ -199,8 +203,12 @@ def MatrixLog3(R):   # pragma: no cover
                   * np.array([1 + R[0][0], R[1][0], R[2][0]]))
         return VecToso3(np.pi * omg)
     else:
-        theta = np.arccos(SafeClip(acosinput, -1.0, 1.0))
-        return theta / 2.0 / np.sin(theta) * (R - (R).T)
+        if not sininput > 0:
+            # not a rotation matrix (e.g. NaN entries): fail as the division by
+            # sin(theta) used to, callers such as fsr.lookAt rely on it
+            raise ZeroDivisionError("MatrixLog3: input is not a rotation matrix")
+        theta = np.arctan2(sininput, acosinput)
+        return theta / 2.0 / sininput * (R - (R).T)
 
 @jit(nopython=True, cache=True)
 def RpToTrans(R, p):   # pragma: no cover
@@ -480,7 +488,7 @@ def MatrixLog6(T):   # pragma: no cover
         rarr[0:3, 3] = np.array([T[0][3], T[1][3], T[2][3]])
         return rarr
     else:
-        theta = np.arccos(SafeClip(((SafeTrace(R) - 1) / 2.0), -1.0, 1.0))
+        theta = Norm(so3ToVec(omgmat))
         vec = np.array([T[0, 3],T[1, 3],T[2, 3]])
         lterm = (np.eye(3) - omgmat / 2.0 + (1.0 / theta - 1.0 /
             np.tan(theta / 2.0) / 2)* np.dot(omgmat, omgmat) / theta)
